@@ -228,7 +228,7 @@ class Tree:
                 elif n['k'] == 'f':
                     with open(p, 'wb') as f:
                         f.write(n['data'])
-                    os.utime(p, ns=(n['mtime'] * 10**9, n['mtime'] * 10**9))
+                    os.utime(p, ns=(int(round(n['mtime'] * 10**9)), int(round(n['mtime'] * 10**9))))
                     paths[t] = p
                 else:
                     if n['kind'] == 'fifo':
